@@ -368,6 +368,9 @@ class Builtins(Methods):
         if c.module == "builtins":
             # exception instance
             return [(st, Opaque("exception:" + c.name))]
+        if not c.module.startswith("ngo"):
+            # class of an external library (argparse.ArgumentParser ...): an uninterpreted, ghost-logged call
+            return ex.call(st, fr, Opaque(f"{c.module}.{c.name}"), args, kwargs)
         # repo class
         init = self.find_method(c.name, "__init__", c.module)
         ref = st.alloc(Obj(c.name, ()))
